@@ -10,7 +10,15 @@
 //   I imm                                              -> "I <ok> <enc>"        (encode_aarch32_imm)
 //   M imm rd x is64                                    -> "M <count> w0 w1 w2 w3"(encode_mov_sequence_32/64)
 //   H size idx                                         -> "H <ok> <lm> <h> <maxrm>" (encode_lmh)
+//   X kind x a b                                        -> "X <ok> <sf> <N> <immr> <imms>" (a64::Assembler: kind 0 bfxil 1 sbfx 2 ubfx 3 bfi 4 sbfiz 5 ubfiz
+//                                                                                  6 bfc 7 bfm 8 sbfm 9 ubfm 10 lsl 11 lsr 12 asr (immediate forms); x = 1: X registers;
+//                                                                                  a, b = lsb,width / immr,imms / shift,0; fields read back from the emitted word)
+//   E width off nbits                                   -> "E <ok>"              (EmitterUtils::is_encodable_offset_32 / _64; width = 32|64)
+//   N kind n x                                          -> "N <ok>"              (Support::is_int_n<n>/is_uint_n<n>; kind: 0 = is_int_n(int64), 1 = is_int_n(uint64),
+//                                                                                  2 = is_uint_n(int64), 3 = is_uint_n(uint64), 4 = is_int_n(int32), 5 = is_uint_n(int32);
+//                                                                                  n from the instantiated list, "N -1" for any other n)
 #include <asmjit/core.h>
+#include <asmjit/a64.h>
 #include <asmjit/core/codewriter_p.h>
 #include <asmjit/core/emitterutils_p.h>
 #include <asmjit/arm/armutils.h>
@@ -18,8 +26,28 @@
 #include <cstdio>
 #include <cstring>
 #include <cinttypes>
+#include <cstdlib>
 
 using namespace asmjit;
+
+// compile-time N of Support::is_int_n / is_uint_n: the instantiations offered to the stream
+#define C17_NLIST(X) X(2) X(7) X(8) X(9) X(12) X(14) X(16) X(19) X(21) X(24) X(25) X(26) X(31) X(32) X(33) X(48) X(63) X(64)
+template<typename T> static int call_is_int_n(unsigned n, T x) {
+  switch (n) {
+#define X(N) case N: return int(Support::is_int_n<N>(x));
+    C17_NLIST(X)
+#undef X
+    default: return -1;
+  }
+}
+template<typename T> static int call_is_uint_n(unsigned n, T x) {
+  switch (n) {
+#define X(N) case N: return int(Support::is_uint_n<N>(x));
+    C17_NLIST(X)
+#undef X
+    default: return -1;
+  }
+}
 
 static const uint64_t HMASK = (uint64_t(1) << 62) - 1;
 static inline uint64_t hmix(uint64_t h, uint64_t x) { return ((h * 1000003u) ^ (x & HMASK)) & HMASK; }
@@ -50,8 +78,24 @@ static void mkfmt(OffsetFormat& f, unsigned ty, unsigned vsize, unsigned bits, u
   f._imm_discard_lsb = uint8_t(discard);
 }
 
+struct BfAsm {
+  CodeHolder code;
+  a64::Assembler a;
+  bool ready;
+  BfAsm() : ready(false) {}
+  bool init() {
+    if (ready) return true;
+    Environment env(Arch::kAArch64);
+    if (code.init(env) != Error::kOk) return false;
+    if (code.attach(&a) != Error::kOk) return false;
+    ready = true;
+    return true;
+  }
+};
+
 int main() {
   char line[512];
+  static BfAsm bf;
   while (fgets(line, sizeof(line), stdin)) {
     char c = line[0];
     if (c == 'T') {
@@ -118,6 +162,42 @@ int main() {
       printf("M %u", n);
       for (uint32_t i = 0; i < 4; i++) printf(" %u", i < n ? out[i] : 0u);
       printf("\n");
+    }
+    else if (c == 'X') {
+      unsigned kind, x; unsigned long long va, vb;
+      if (sscanf(line + 1, "%u %u %llu %llu", &kind, &x, &va, &vb) != 4 || !bf.init()) { printf("BAD\n"); continue; }
+      static const InstId ids[13] = { a64::Inst::kIdBfxil, a64::Inst::kIdSbfx, a64::Inst::kIdUbfx, a64::Inst::kIdBfi, a64::Inst::kIdSbfiz,
+                                      a64::Inst::kIdUbfiz, a64::Inst::kIdBfc, a64::Inst::kIdBfm, a64::Inst::kIdSbfm, a64::Inst::kIdUbfm,
+                                      a64::Inst::kIdLsl, a64::Inst::kIdLsr, a64::Inst::kIdAsr };
+      if (kind > 12) { printf("BAD\n"); continue; }
+      a64::Gp rd = x ? a64::Gp(a64::x3) : a64::Gp(a64::w3);
+      a64::Gp rn = x ? a64::Gp(a64::x5) : a64::Gp(a64::w5);
+      bf.a.set_offset(0);
+      Error err;
+      if (kind == 6) err = bf.a.emit(ids[kind], rd, Imm(uint64_t(va)), Imm(uint64_t(vb)));
+      else if (kind >= 10) err = bf.a.emit(ids[kind], rd, rn, Imm(uint64_t(va)));
+      else err = bf.a.emit(ids[kind], rd, rn, Imm(uint64_t(va)), Imm(uint64_t(vb)));
+      if (err != Error::kOk || bf.a.offset() != 4) { printf("X 0 0 0 0 0\n"); continue; }
+      uint32_t w; memcpy(&w, bf.code.text_section()->buffer().data(), 4);
+      printf("X 1 %u %u %u %u\n", w >> 31, (w >> 22) & 1u, (w >> 16) & 63u, (w >> 10) & 63u);
+    }
+    else if (c == 'E') {
+      unsigned w, nb; long long off;
+      if (sscanf(line + 1, "%u %lld %u", &w, &off, &nb) != 3) { printf("BAD\n"); continue; }
+      bool ok = (w == 32) ? EmitterUtils::is_encodable_offset_32(int32_t(off), nb) : EmitterUtils::is_encodable_offset_64(int64_t(off), nb);
+      printf("E %d\n", int(ok));
+    }
+    else if (c == 'N') {
+      unsigned kind, n; char xs[64];
+      if (sscanf(line + 1, "%u %u %63s", &kind, &n, xs) != 3) { printf("BAD\n"); continue; }
+      int r = -1;
+      if (kind == 0) r = call_is_int_n<int64_t>(n, int64_t(strtoll(xs, nullptr, 10)));
+      else if (kind == 1) r = call_is_int_n<uint64_t>(n, uint64_t(strtoull(xs, nullptr, 10)));
+      else if (kind == 2) r = call_is_uint_n<int64_t>(n, int64_t(strtoll(xs, nullptr, 10)));
+      else if (kind == 3) r = call_is_uint_n<uint64_t>(n, uint64_t(strtoull(xs, nullptr, 10)));
+      else if (kind == 4) r = call_is_int_n<int32_t>(n, int32_t(strtoll(xs, nullptr, 10)));
+      else if (kind == 5) r = call_is_uint_n<int32_t>(n, int32_t(strtoll(xs, nullptr, 10)));
+      printf("N %d\n", r);
     }
     else if (c == 'H') {
       unsigned sz, idx; sscanf(line + 1, "%u %u", &sz, &idx);
